@@ -401,7 +401,11 @@ class C03:
                 sub = "-in-a-chain-segment"
             else:
                 sub = f"@{where}"
-            rec.violation(f"{kind}/multiline-string{sub}", case, detail)
+            if where.startswith("three-on-a-line") or has_chain(tree):
+                # listed zones: whatever form the deviation takes there (rejected, other commands, other files)
+                rec.violation(f"MISWRAPPED/multiline-string{sub}", case, dict(detail, deviation=kind))
+            else:
+                rec.violation(f"{kind}/multiline-string{sub}", case, detail)
         elif cause:
             rec.violation(f"{kind}/{cause}", case, detail)
         else:
